@@ -717,6 +717,31 @@ func BVOp(op string, a, b *Term) *Term {
 			return BVBig(r, w)
 		}
 	}
+	// (x + c1) +/- c2  ==>  x + (c1 +/- c2)   (modular arithmetic: always valid)
+	if (op == "bvadd" || op == "bvsub") && b.Op == "bv" && (a.Op == "bvadd" || a.Op == "bvsub") && len(a.Args) == 2 {
+		var x *Term
+		c1 := new(big.Int)
+		switch {
+		case a.Args[1].Op == "bv":
+			x = a.Args[0]
+			c1.Set(a.Args[1].V)
+			if a.Op == "bvsub" {
+				c1.Neg(c1)
+			}
+		case a.Op == "bvadd" && a.Args[0].Op == "bv":
+			x = a.Args[1]
+			c1.Set(a.Args[0].V)
+		}
+		if x != nil {
+			c := new(big.Int)
+			if op == "bvadd" {
+				c.Add(c1, b.V)
+			} else {
+				c.Sub(c1, b.V)
+			}
+			return BVOp("bvadd", x, BVBig(c, w))
+		}
+	}
 	zero := a.Op == "bv" && a.V.Sign() == 0
 	bzero := b.Op == "bv" && b.V.Sign() == 0
 	switch op {
